@@ -287,7 +287,7 @@ func (x *c16) stringLaws(s string, r *core.Rand) {
 func (x *c16) splitJoin(r *core.Rand) {
 	seps := []string{",", " ", "--", "é", "&", "a"}
 	sep := seps[r.Intn(len(seps))]
-	k := r.Range(1, 5)
+	k := r.Range(0, 5) // zero pieces join to the empty string, which splits into zero pieces again
 	pieces := make([]string, k)
 	for i := range pieces {
 		for {
@@ -308,7 +308,7 @@ func (x *c16) splitJoin(r *core.Rand) {
 	}
 	joined := strings.Join(pieces, sep)
 	// a piece boundary may create a new separator occurrence (e.g. "-" + "--" + "x"): skip those
-	if len(strings.Split(joined, sep)) != k {
+	if k > 0 && len(strings.Split(joined, sep)) != k {
 		x.c.Skip("joined pieces contain an accidental separator")
 		return
 	}
@@ -321,7 +321,10 @@ func (x *c16) splitJoin(r *core.Rand) {
 	x.c.Eval(1)
 	x.c.Obs("laws_checked", 1)
 	x.c.Distinct("splitjoin", joined, sep)
-	want := fmt.Sprintf("%s|%d|%s|%s", joined, k, pieces[0], pieces[k-1])
+	want := "|0||"
+	if k > 0 {
+		want = fmt.Sprintf("%s|%d|%s|%s", joined, k, pieces[0], pieces[k-1])
+	}
 	if !res.OK() || res.Out != want {
 		x.c.Violate("split|inverse-of-join", "split and join must be inverse on separator-free pieces",
 			map[string]any{"pieces": fmt.Sprintf("%q", pieces), "separator": sep, "expected": want, "observed": res.Brief()})
